@@ -48,3 +48,8 @@ claim('C06', 'exploration',
       'Trusted: pysam/htslib, pysamiterators. For hamming>0 only soundness; with a cap no idempotence (overflow depends on input order); rejection-reason strings of rejected fragments are not compared.',
       'property-based testing (Hypothesis) with a ground-truth library simulator; metamorphic history relations (retag, preset flags)',
       'DESIGN.md section 4, C06')
+claim('C08', 'exploration',
+      'Hypothesis-generated simulated libraries tagged serially and in parallel: contig-per-process mode (--multiprocess, 1..8 workers, deterministic pool with drawn completion order or the real pool) and the region-tiling mode of tag_multiome_multi_processing reached through the real command line function with drawn segment size / fetch margin / job size and sites on and next to bin boundaries; outputs compared as multisets of records with flags and molecule-level tags.',
+      'Trusted: pysam/htslib merge/sort, multiprocessing. Fetch margin larger than the longest fragment; per-run ids ignored; sites inside [0, contig length).',
+      'property-based testing (Hypothesis), differential oracle serial vs parallel; completion order owned by a deterministic pool',
+      'DESIGN.md section 4, C08')
